@@ -16,7 +16,8 @@ EXPLANATION = (
     '_get_restart_args(), and the restart arguments carry the state attribute as init_state. R4: for each kind the '
     'parent-side store of the received state is either eager (made by the frontend thread that wait/terminate/is_alive join '
     'before reporting death) or deferred to a function that runs on demand - then that function is reachable from the '
-    'user_state getter itself, so a parent that reads user_state right after wait() returned True sees the child\'s value.')
+    'user_state getter itself, so a parent that reads user_state right after wait() returned True sees the child\'s value.'
+    " R1 also: the received state is stored whatever its value - the unpacking may go through a local, but the store into the state attribute has no test of its own (None or an empty container is a state the child may have assigned last); nobody but the reader closes the parent's end of the pipe that carries the final message.")
 TECHNIQUE = 'channel send/receive sequence agreement, who-may-write, call-graph reachability from the getter'
 
 STATE = '_user_state'
